@@ -33,14 +33,57 @@ def display_sequences(world, fnkey):
                 continue
             if e["name"].endswith("Formatter::<'_>::write_str"):
                 seq.append(("lit", nm.n(e["vals"][1])))
+            elif e["name"].endswith("Formatter::<'_>::write_fmt"):
+                seq.extend(decode_format_args(nm, e["vals"][1]))
             elif e["name"] == "base64::write_to_fmt":
                 seq.append(("b64", nm.n(e["vals"][0])))
+            elif "fmt::rt::Argument" in e["name"] or "fmt::Arguments" in e["name"]:
+                continue            # pure constructors of format_args!; what is written is decoded at write_fmt
             elif "fmt" in e["name"] or "write" in e["name"]:
                 seq.append(("other", e["name"]))
         guards = [(nm.n(g["cond"]), g["value"]) for g in r.path.guards if not (isinstance(g["cond"], tuple) and g["cond"][0] == "discr")]
         # the last write's result is returned: okness None paths (return of the last call) count as Ok
         out.append((seq, guards))
     return f, out
+
+def decode_format_args(nm, t):
+    """write!(f, "lit{}lit{}", a, b): fmt::Arguments::new(template, args) decoded into the sequence of writes it performs.
+    Template encoding (library/core/src/fmt/mod.rs): n<0x80: n literal bytes follow; 0x80: u16 length + bytes; 0xC0: default
+    placeholder taking the next argument; 0x00: end. Placeholders with options are reported as ('other', ...)."""
+    t = nm.n(t) if not (isinstance(t, tuple) and t and t[0] == "call") else t
+    if not (isinstance(t, tuple) and t and t[0] == "call" and "fmt::Arguments" in t[1] and "::new" in t[1] and len(t[2]) == 2):
+        return [("other", "write_fmt with an argument that is not a literal format_args!")]
+    tmpl, args = t[2]
+    tmpl = nm.n(tmpl)
+    if isinstance(tmpl, tuple) and tmpl and tmpl[0] in ("b", "bytes"):
+        tb = tmpl[1]
+    else:
+        return [("other", "format template not constant")]
+    arglist = list(args[2]) if isinstance(args, tuple) and args and args[0] == "agg" else None
+    out, i, nexta = [], 0, 0
+    while i < len(tb):
+        n = tb[i]
+        i += 1
+        if n == 0 and i == len(tb):
+            break
+        if n < 0x80:
+            out.append(("lit", ("b", bytes(tb[i:i + n]))))
+            i += n
+        elif n == 0x80:
+            ln = tb[i] | (tb[i + 1] << 8)
+            out.append(("lit", ("b", bytes(tb[i + 2:i + 2 + ln]))))
+            i += 2 + ln
+        elif n == 0xC0:
+            a = arglist[nexta] if arglist and nexta < len(arglist) else None
+            nexta += 1
+            if isinstance(a, tuple) and a and a[0] == "call" and "Argument" in a[1] and "new_display::<&str>" in a[1]:
+                out.append(("lit", nm.n(a[2][0])))
+            else:
+                out.append(("other", "formatted argument that is not a &str Display: " + str(a)[:80]))
+        else:
+            out.append(("other", "placeholder with formatting options"))
+            break
+    return out
 
 def peel_ok(t):
     while isinstance(t, tuple) and t and t[0] == "ok":
